@@ -168,9 +168,47 @@ def template_scenario(tid, text, ctx, std):
         stmts = stmts_from_template(text, ch, tid, s_std)
         for s in stmts:
             s.tags = frozenset(["probe"])
+            if SEED:
+                s.text = respell(s.text, SEED)
         return in_context(stmts, ctx)
 
     return scenario
+
+
+import os as _os
+
+SEED = int(_os.environ.get("VERIF_SEED", "0") or 0)
+
+
+def respell(text, seed):
+    """VERIF_SEED rotates the SPELLING of user names (never the shapes that
+    are enumerated): the (seed mod len)-th letter of every user identifier is
+    written in upper case.  Keywords, intrinsic names, FORMAT/IMPLICIT
+    statements and BOZ / kind prefixes are left alone."""
+    from mc import lexer
+    from mc.normalise import FOLD
+
+    low = text.lower().lstrip()
+    if low.startswith(("format", "implicit")) or re.match(r"\d+\s+format", low):
+        return text
+    try:
+        toks = lexer.lex(text)
+    except lexer.LexError:
+        return text
+    out = []
+    pos = 0
+    for i, (k, t) in enumerate(toks):
+        j = text.index(t, pos)
+        out.append(text[pos:j])
+        pos = j + len(t)
+        if k == "id" and t.lower() not in FOLD and len(t) > 1 and not (i + 1 < len(toks) and toks[i + 1][0] == "str" and (t.endswith("_") or t.lower() in ("b", "o", "z"))):
+            letters = [n for n, c in enumerate(t) if c.isalpha()]
+            if letters:
+                n = letters[seed % len(letters)]
+                t = t[:n] + t[n].upper() + t[n + 1 :]
+        out.append(t)
+    out.append(text[pos:])
+    return "".join(out)
 
 
 # ---------------------------------------------------------- exec constructs
